@@ -12,7 +12,14 @@
                             s<c>.<m> (publish snapshot), a (append one), d<t> (drain); pattern p matches channel c iff c / 100 = p
      reply: out=<m,...> view=<m,...> expected=<m,...>
    live <b> <k> <events>    events: r<b>.<k> u<b> w<k>.<d> p v<b>
-     reply: out=<d,...> view=<d,...> *)
+     reply: out=<d,...> view=<d,...>
+   hookttl                  reply: the retention of the property in ms (Queues.hook_ttl)
+   retention <own|shared> <h> <events>
+       the queue with the shared options record as state (Model/HookRetention.v); own = Hook.proc re-inserts with
+       an options value of its own (the proved variant), shared = it assigns the TTL through the shared pointer.
+       events ',' separated, times in ms: e<t>.<hook>.<msg>[+<hook>.<msg>...] (one write), t<t>.<hook> (the manager
+       takes the queue), f<t>.<hook>.<0/1 string or -> (it sends: outcomes; on failure re-inserts), R<t> (restart)
+     reply: ttls=<msg>:<ttl>,... (what every message got when it was queued) default=<ms> delivered=<msg,...> pending=<msg,...> (of hook h) *)
 open Model
 open Conv
 
@@ -73,8 +80,34 @@ let lev s =
   | 'v' -> LDeliver (nat_of_int (int_of_string body))
   | _ -> failwith "lev"
 
+let qev_of s =
+  let body = String.sub s 1 (String.length s - 1) in
+  let zi x = z_of_int (int_of_string x) in
+  match s.[0], String.split_on_char '.' body with
+  | 'e', t :: rest ->
+      let rest = String.split_on_char '+' (String.concat "." rest) in
+      Enq (zi t, List.map (fun hm -> let (a, b) = pair hm in (ni a, ni b)) rest)
+  | 't', [t; h] -> Mgr (ni h, zi t, [])
+  | 'f', [t; h; o] -> Mgr (ni h, zi t, if o = "-" then [] else List.init (String.length o) (fun i -> o.[i] = '1'))
+  | 'R', [t] -> Restart (zi t)
+  | _ -> failwith "qev"
+
+let retention variant h evs =
+  let v = match variant with "own" -> RetryOwn | "shared" -> RetryThroughDefault | _ -> failwith "variant" in
+  let h = ni h in
+  let evs = List.map qev_of (split ',' evs) in
+  let s0 = rq_init hook_ttl in
+  let s = rrun v hook_ttl s0 evs in
+  let ttls = fresh_ttls v hook_ttl s0 evs in
+  Printf.sprintf "ttls=%s default=%d delivered=%s pending=%s"
+    (match ttls with [] -> "-" | _ -> String.concat "," (List.map (fun (m, t) -> Printf.sprintf "%d:%d" (int_of_n m) (int_of_z t)) ttls))
+    (int_of_z s.r_def)
+    (lst (List.map (fun e -> e.e_msg) (s.r_q.q_delivered h))) (lst (List.map (fun e -> e.e_msg) (pending s.r_q h)))
+
 let handle (toks : string list) : string =
   match toks with
+  | ["hookttl"] -> string_of_int (int_of_z hook_ttl)
+  | ["retention"; v; h; evs] -> retention v h evs
   | ["hooksim"; h; enq; outs] -> hooksim h enq outs (-1)
   | ["hooksim"; h; enq; outs; k] -> hooksim h enq outs (int_of_string k)
   | ["pubsub"; t; evs] ->
